@@ -40,8 +40,9 @@ Proof.
   - right. exists 1. split; [now left|]. split; [reflexivity|right; reflexivity].
 Qed.
 
-(* every event keeps what the existing nodes know, their modes and bootstrap lists; only a crash changes liveness *)
-Theorem C13_events_keep_knowledge : forall e nt i, i < length nt -> keeps nt (nstep nt e) i e.
+(* every event keeps what the existing nodes know, their modes and bootstrap lists; only a crash changes liveness
+   (a node coming up at an address that was dead before is the one event that replaces an entry) *)
+Theorem C13_events_keep_knowledge : forall e nt i, is_start e = false -> i < length nt -> keeps nt (nstep nt e) i e.
 Proof. exact step_keeps. Qed.
 
 (* what was learned is kept: lookups only add to the tables, and leave liveness, mode, bootstrap lists alone *)
